@@ -68,9 +68,11 @@ fn exec(sc: &Scn, render: bool) -> RunOutput {
     let mut viol: Vec<(String, String)> = Vec::new();
     let mut fps = Vec::new();
     let mut wit = 0u64;
-    // reference model of the receiving side's bounded queue
-    let mut model_enq: Vec<RFrame> = Vec::new();
-    let mut model_dropped = 0usize;
+    // reference model of the receiving side's bounded queue. Which datagram is sacrificed when one arrives at a full
+    // queue (the arriving one, the oldest one ...) is not fixed by the property, the OCCUPANCY is the same either way:
+    // `processed` = every datagram the receiving task took in, `overflow_at` = positions in it at which the queue was full
+    let mut processed: Vec<RFrame> = Vec::new();
+    let mut overflow_at: Vec<usize> = Vec::new();
     let mut seen_consumed = 0usize;
     let mut horizon = false;
     let mut phase = 0;
@@ -112,36 +114,40 @@ fn exec(sc: &Scn, render: bool) -> RunOutput {
             seen_consumed += 1;
             if dir == 0 {
                 if let RFrame::Datagram { .. } = f {
-                    if model_enq.len() - deq < sc.buf {
-                        model_enq.push(f);
-                    } else {
-                        model_dropped += 1;
+                    if processed.len() - overflow_at.len() - deq.min(processed.len() - overflow_at.len()) >= sc.buf {
+                        overflow_at.push(processed.len());
                         wit |= W_DROPPED_FULL;
                     }
+                    processed.push(f);
                 }
             }
         }
-        // what the application received so far must be exactly the head of what the model queued
+        // what the application received so far must be a subsequence of what the receiving task took in: in order,
+        // at most once, all four fields unchanged
         let got: Vec<&Ev> = obs.events.iter().filter(|e| matches!(e, Ev::DgramGot { side: 1, .. })).collect();
+        let mut at = 0usize;
         for (i, e) in got.iter().enumerate() {
             let Ev::DgramGot { flow, host, port, data, .. } = e else { continue };
-            match model_enq.get(i) {
-                Some(RFrame::Datagram { id, port: p, host: h, data: d }) => {
-                    if id != flow || p != port || h != host || d != data {
-                        push_viol(
-                            &mut viol,
-                            "datagram.modified-or-reordered",
-                            format!("datagram #{i} delivered as (flow {flow:#x}, host {} B, port {port}, data {} B) but the {i}-th datagram that entered the receive queue was (flow {id:#x}, host {} B, port {p}, data {} B)", host.len(), data.len(), h.len(), d.len()),
-                        );
+            let same = |f: &RFrame| matches!(f, RFrame::Datagram { id, port: p, host: h, data: d } if id == flow && p == port && h == host && d == data);
+            match processed[at.min(processed.len())..].iter().position(same) {
+                Some(k) => at += k + 1,
+                None => {
+                    if processed.iter().any(same) {
+                        push_viol(&mut viol, "datagram.modified-or-reordered", format!("datagram #{i} delivered as (flow {flow:#x}, host {} B, port {port}, data {} B) is out of order or a duplicate: it is not among the datagrams that arrived after the previously delivered one", host.len(), data.len()));
+                    } else {
+                        push_viol(&mut viol, "datagram.duplicate-or-phantom", format!("datagram #{i} delivered as (flow {flow:#x}, host {} B, port {port}, data {} B) matches none of the {} datagrams the receiving task took in (modified, or made up)", host.len(), data.len(), processed.len()));
                     }
+                    break;
                 }
-                _ => push_viol(&mut viol, "datagram.duplicate-or-phantom", format!("the application received {} datagrams but only {} entered the receive queue", got.len(), model_enq.len())),
             }
+        }
+        if got.len() > processed.len() {
+            push_viol(&mut viol, "datagram.duplicate-or-phantom", format!("the application received {} datagrams but only {} reached the receiving task", got.len(), processed.len()));
         }
         let mut h = Fnv::default();
         h.u64(obs.events.len() as u64);
-        h.u64(model_enq.len() as u64);
-        h.u64(model_dropped as u64);
+        h.u64(processed.len() as u64);
+        h.u64(overflow_at.len() as u64);
         {
             let l = w.sim.link.lock();
             for d in 0..2 {
@@ -191,20 +197,35 @@ fn exec(sc: &Scn, render: bool) -> RunOutput {
     if on_wire != expected_on_wire {
         push_viol(&mut viol, "send.wire-mismatch", format!("datagram frames on the wire differ from the accepted datagrams (in order): {} on the wire, {} accepted; first difference at index {:?}", on_wire.len(), expected_on_wire.len(), on_wire.iter().zip(expected_on_wire.iter()).position(|(a, b)| a != b)));
     }
-    // lost only when the receive buffer was full: everything the model queued must have been received
-    let got = obs.events.iter().filter(|e| matches!(e, Ev::DgramGot { side: 1, .. })).count();
-    if got != model_enq.len() && !horizon {
+    // lost only when the receive buffer was full: every missing datagram must be accounted for by a moment, at or after
+    // its arrival, at which a datagram arrived at a full queue (one loss per such moment)
+    let got: Vec<&Ev> = obs.events.iter().filter(|e| matches!(e, Ev::DgramGot { side: 1, .. })).collect();
+    let mut lost: Vec<usize> = Vec::new();
+    {
+        let mut gi = 0usize;
+        for (pi, f) in processed.iter().enumerate() {
+            let hit = got.get(gi).is_some_and(|e| matches!((e, f), (Ev::DgramGot { flow, host, port, data, .. }, RFrame::Datagram { id, port: p, host: h, data: d }) if id == flow && p == port && h == host && d == data));
+            if hit {
+                gi += 1;
+            } else {
+                lost.push(pi);
+            }
+        }
+    }
+    let accounted = lost.len() <= overflow_at.len() && lost.iter().rev().zip(overflow_at.iter().rev()).all(|(l, o)| l <= o);
+    if !accounted && !horizon {
         push_viol(
             &mut viol,
             "datagram.lost-without-cause",
-            format!("{} datagrams entered the receive queue while it had room (buffer {}), the application received {got} ({} were dropped because the queue was full)", model_enq.len(), sc.buf, model_dropped),
+            format!("{} datagrams reached the receiving task, the application received {}; missing (positions) {lost:?}, but a datagram arrived at a full queue (buffer {}) only at positions {overflow_at:?}", processed.len(), got.len(), sc.buf),
         );
     }
-    if model_dropped == 0 && got == expected_on_wire.len() {
+    let got = got.len();
+    if overflow_at.is_empty() && got == expected_on_wire.len() {
         wit |= W_ALL_DELIVERED;
     }
-    if model_enq.len() + model_dropped != expected_on_wire.len() && !horizon {
-        push_viol(&mut viol, "datagram.not-processed", format!("{} datagrams were transmitted but the receiving task processed only {}", expected_on_wire.len(), model_enq.len() + model_dropped));
+    if processed.len() != expected_on_wire.len() && !horizon {
+        push_viol(&mut viol, "datagram.not-processed", format!("{} datagrams were transmitted but the receiving task processed only {}", expected_on_wire.len(), processed.len()));
     }
     // never terminates the connection, never disturbs stream traffic
     for side in 0..2 {
